@@ -5,15 +5,15 @@ NP32 == [t1 |-> 3, t2 |-> 2]
 CTP == <<"t1", 0>>
 \* reduced action mix (current-generation requests only, no commits); was needed for the 3-member run while the store
 \* dropped the timeouts (KeepT={FALSE}: 22 M transitions with the full Next); not used by the registered configs any more
-NextCore == \/ \E c \in Members : \/ \E s \in SubsChoices, ss \in SessChoices : Join(c, s, ss)
+NextCore == \/ \E c \in Members : \/ \E s \in SubsChoices, ss \in SessChoices : Join(c, s, ss, FALSE)
                                   \/ Sync(c, 0) \/ Heartbeat(c, 0) \/ Leave(c)
             \/ Tick \/ Failover \/ DeleteGroups
 \* simulation only: a clock-heavy mix (time must pass for the C43 paths; uniform choice among ~30 requests rarely ticks)
-NextClock == \/ \E c \in Members : \/ \E s \in SubsChoices, ss \in SessChoices : Join(c, s, ss)
+NextClock == \/ \E c \in Members : \/ \E s \in SubsChoices, ss \in SessChoices : Join(c, s, ss, FALSE)
                                    \/ Sync(c, 0) \/ Heartbeat(c, 0)
              \/ Tick \/ Failover
 \* simulation only, with the Dev*Unlocked designs on: requests and ticks whose store I/O is held, released later
-NextRace == \/ \E c \in Members : \/ \E s \in SubsChoices, ss \in SessChoices : Join(c, s, ss)
+NextRace == \/ \E c \in Members : \/ \E s \in SubsChoices, ss \in SessChoices : Join(c, s, ss, FALSE)
                                   \/ Sync(c, 0) \/ Heartbeat(c, 0)
             \/ Tick \/ Failover \/ Release
 ====
